@@ -81,16 +81,7 @@ func c40Report(r *vkit.Run, spec *caseSpec, res *caseResult) {
 	}
 }
 
-var tStart = time.Now()
-
-func tmark(s string) {
-	if phaseLog {
-		fmt.Fprintf(os.Stderr, "T %s +%v\n", s, time.Since(tStart))
-	}
-}
-
 func c40(r *vkit.Run) {
-	tmark("c40 start")
 	r.SetRule("one case = one SPDY/3.1 connection (net.Pipe, 1 in 5 loopback TCP) served by bfe_spdy's handleConn+serve; a scripted client " +
 		"(spdycli) plays a seeded script of five kinds: respecting uploads to gated handlers with DATA exactly at / one over / far over the " +
 		"advertised windows; uploads whose handlers discard the body; downloads (handlers write 0..1MB in random chunks) with drip-fed " +
@@ -110,7 +101,6 @@ func c40(r *vkit.Run) {
 	bfe_spdy.VerifEnableState()
 	debug.SetGCPercent(400) // connections are allocation heavy (zlib contexts); memory is not a concern here
 	base, _ := spdyGoroutines()
-	tmark("census base")
 
 	if r.Replay != "" {
 		var w c40Witness
@@ -127,14 +117,13 @@ func c40(r *vkit.Run) {
 		return
 	}
 
-	n := r.N(2500, 30000)
-	if v := os.Getenv("VSPDY_N"); v != "" { // development only
+	n := r.N(4000, 40000)
+	if v := os.Getenv("VSPDY_N"); v != "" { // monitor self-tests (mutants) only: a prefix of the tier's case list
 		fmt.Sscan(v, &n)
 	}
 	vkit.Parallel(n, 2*runtime.NumCPU(), func(i int) {
 		spec := genCase(r, i)
 		c40WriteAhead(r, i, true)
-		t0 := time.Now()
 		res := runCase(spec)
 		c40WriteAhead(r, i, false)
 		if res.Inconcl != "" {
@@ -144,20 +133,13 @@ func c40(r *vkit.Run) {
 			}
 			inflightMu.Unlock()
 		}
-		if d := time.Since(t0); os.Getenv("VSPDY_TIMING") != "" {
-			r.Count("ms_"+spec.Kind, d.Milliseconds())
-			if d > 2*time.Second {
-				fmt.Fprintf(os.Stderr, "slow case %d kind=%s %v inconcl=%q\n", i, spec.Kind, d, res.Inconcl)
-			}
-		}
+
 		c40Report(r, spec, res)
 	})
-	tmark("cases done")
 	if len(inconclCases) > 0 {
 		r.Extra("inconclusive_cases", inconclCases)
 	}
 	c40Epilogue(r, base)
-	tmark("epilogue done")
 
 	// outcomes the workload is supposed to reach
 	for _, k := range []string{
